@@ -45,8 +45,12 @@ func main() {
 	if err != nil {
 		panic(err)
 	}
-	ms := mutants(file, src)
-	switch os.Args[1] {
+	set := 1
+	if strings.HasSuffix(os.Args[1], "2") {
+		set = 2
+	}
+	ms := mutants(file, src, set)
+	switch strings.TrimSuffix(os.Args[1], "2") {
 	case "list":
 		enc := json.NewEncoder(os.Stdout)
 		for _, m := range ms {
@@ -68,7 +72,7 @@ var swaps = map[token.Token][]string{
 	token.ADD: {"-"}, token.SUB: {"+"},
 }
 
-func mutants(file string, src []byte) []Mutant {
+func mutants(file string, src []byte, set int) []Mutant {
 	fset := token.NewFileSet()
 	f, err := parser.ParseFile(fset, file, src, 0)
 	if err != nil {
@@ -146,6 +150,9 @@ func mutants(file string, src []byte) []Mutant {
 		}
 		return true
 	}
+	if set == 2 {
+		visit = visit2(src, off, add, func(n string) { curFunc = n }, isErrCall)
+	}
 	ast.Inspect(f, visit)
 	for i := range out {
 		out[i].ID = i
@@ -200,4 +207,98 @@ func clip(s string) string {
 		s = s[:90] + "…"
 	}
 	return s
+}
+
+// ---- second operator set: dropped conjuncts, removed '!', swapped arguments, moved slice bounds and
+// indices, break <-> continue, compound assignments, look-alike strings functions ----
+
+var lookAlike = map[string]string{"HasPrefix": "HasSuffix", "HasSuffix": "HasPrefix", "TrimLeft": "TrimRight", "TrimRight": "TrimLeft", "Index": "LastIndex", "LastIndex": "Index",
+	"TrimPrefix": "TrimSuffix", "TrimSuffix": "TrimPrefix", "ToUpper": "ToLower", "ToLower": "ToUpper", "IsDigit": "IsLetter", "IsLetter": "IsDigit", "Itoa": "Quote"}
+
+func visit2(src []byte, off func(token.Pos) int, add func(start, end token.Pos, repl, op string), setFunc func(string), isErrCall func(*ast.CallExpr) bool) func(ast.Node) bool {
+	text := func(n ast.Node) string { return string(src[off(n.Pos()):off(n.End())]) }
+	ifConds := map[ast.Expr]bool{}
+	return func(n ast.Node) bool {
+		switch x := n.(type) {
+		case *ast.FuncDecl:
+			setFunc(x.Name.Name)
+		case *ast.IfStmt:
+			ifConds[x.Cond] = true
+		case *ast.CallExpr:
+			if isErrCall(x) {
+				return false
+			}
+			for i := 0; i+1 < len(x.Args); i++ {
+				a, b := text(x.Args[i]), text(x.Args[i+1])
+				if a != b {
+					add(x.Args[i].Pos(), x.Args[i+1].End(), b+", "+a, "swap-args")
+				}
+			}
+			if s, ok := x.Fun.(*ast.SelectorExpr); ok {
+				if r, ok := lookAlike[s.Sel.Name]; ok {
+					add(s.Sel.Pos(), s.Sel.End(), r, "call "+s.Sel.Name+" -> "+r)
+				}
+				if s.Sel.Name == "TrimSpace" && len(x.Args) == 1 {
+					add(x.Pos(), x.End(), text(x.Args[0]), "drop TrimSpace")
+				}
+			}
+		case *ast.UnaryExpr:
+			if x.Op == token.NOT && !ifConds[x] {
+				add(x.Pos(), x.End(), "("+text(x.X)+")", "remove-not")
+			}
+		case *ast.BinaryExpr:
+			if x.Op == token.LAND || x.Op == token.LOR {
+				add(x.Pos(), x.End(), "("+text(x.X)+")", "keep-left of "+x.Op.String())
+				add(x.Pos(), x.End(), "("+text(x.Y)+")", "keep-right of "+x.Op.String())
+			}
+		case *ast.SliceExpr:
+			if x.Low != nil {
+				add(x.Low.Pos(), x.Low.End(), "("+text(x.Low)+")+1", "slice-low+1")
+			} else {
+				add(x.Lbrack+1, x.Lbrack+1, "1", "slice-low 0->1")
+			}
+			if x.High != nil {
+				add(x.High.Pos(), x.High.End(), "("+text(x.High)+")-1", "slice-high-1")
+				add(x.High.Pos(), x.High.End(), "("+text(x.High)+")+1", "slice-high+1")
+			} else {
+				add(x.Rbrack, x.Rbrack, "len("+text(x.X)+")-1", "slice-high len-1")
+			}
+		case *ast.IndexExpr:
+			ok := false
+			switch ix := x.Index.(type) {
+			case *ast.BasicLit:
+				ok = ix.Kind == token.INT
+			case *ast.BinaryExpr:
+				ok = !isString(ix)
+			case *ast.Ident:
+				switch ix.Name {
+				case "i", "j", "k", "idx", "pos", "index", "n", "statementIndex":
+					ok = true
+				}
+			}
+			if ok {
+				add(x.Index.Pos(), x.Index.End(), "("+text(x.Index)+")+1", "index+1")
+				add(x.Index.Pos(), x.Index.End(), "("+text(x.Index)+")-1", "index-1")
+			}
+		case *ast.BranchStmt:
+			if x.Label == nil && x.Tok == token.BREAK {
+				add(x.Pos(), x.End(), "continue", "break->continue")
+			} else if x.Label == nil && x.Tok == token.CONTINUE {
+				add(x.Pos(), x.End(), "break", "continue->break")
+			}
+		case *ast.AssignStmt:
+			switch x.Tok {
+			case token.ADD_ASSIGN:
+				if len(x.Rhs) == 1 && !isString(x.Rhs[0]) {
+					add(x.TokPos, x.TokPos+2, "-=", "+= -> -=")
+					add(x.TokPos, x.TokPos+2, "=", "+= -> =")
+				}
+			case token.SUB_ASSIGN:
+				add(x.TokPos, x.TokPos+2, "+=", "-= -> +=")
+			}
+		case *ast.ReturnStmt:
+			// return a, b with two results of the same spelling class: leave alone (types unknown)
+		}
+		return true
+	}
 }
